@@ -720,6 +720,17 @@ def spec_logdensity(d, T, q, prev, cur, N):
     return det, out
 
 
+def trans_tol(T, q, b, j, quad, ld, condQ):
+    """tolerance on the log-density of pair j: conditioning of Q, plus the rounding of the residual cur - F prev
+    (cancellation when the states are large against the noise: an error eps (|cur| + |F||prev|) in the residual moves
+    the quadratic form by 2 sqrt(quad) / sqrt(lambda_min(Q)) times that)"""
+    n = len(b["cur"])
+    big = max([abs(b["cur"][i][j]) for i in range(n)] + [0.0]) + (1.0 + abs(T)) * max([abs(b["prev"][i][j]) for i in range(n)] + [0.0])
+    lam_min = q * T ** 4 / (12.0 * (T ** 3 / 3.0 + T))
+    cancel = 16 * n * EPS * big * (math.sqrt(float(quad)) + 1.0) / math.sqrt(lam_min)
+    return 1e-12 * condQ * (1.0 + float(quad)) + 1e-11 * (1 + abs(ld)) + cancel
+
+
 def post_trans(c, stats):
     m = c.meta
     d = m["d"]
@@ -748,7 +759,7 @@ def post_trans(c, stats):
             continue
         for j in range(N):
             quad, ld = spec[j]
-            tol = 1e-12 * condQ * (1.0 + float(quad)) + 1e-11 * (1 + abs(ld))
+            tol = trans_tol(m["T"], m["q"], b, j, quad, ld, condQ)
             if ld < -700:       # underflow: zero, or the smallest value a clamped vectorised exp returns
                 err = 0.0 if (0.0 <= p[j] <= 1e-290) else float("inf")
             elif p[j] > 0 and math.isfinite(p[j]):
@@ -789,7 +800,7 @@ def cmp_trans(c, stats):
             return
         for j in range(N):
             quad, ld = spec[j]
-            tol = 1e-12 * c.st["condQ"] * (1.0 + float(quad)) + 1e-11 * (1 + abs(ld))
+            tol = trans_tol(c.meta["T"], c.meta["q"], b, j, quad, ld, c.st["condQ"])
             a, bb = dens[j], p[j]
             if ld < -700:
                 pass
